@@ -425,3 +425,181 @@ func (g *Graph) SingleDefOrParam(obj types.Object) bool {
 	}
 	return g.assignCount(obj) <= 1
 }
+
+// ExprCmp is a normalised ordering comparison found anywhere in a function
+// body (not only in branch conditions).
+type ExprCmp struct {
+	Expr *ast.BinaryExpr
+	Op   token.Token // ((A+shift) - B) Op 0
+}
+
+// Holds evaluates the comparison for sign(d).
+func (o ExprCmp) Holds(sign int) bool { return OrdCmp{Op: o.Op}.Holds(sign) }
+
+// ExprCmps finds every comparison between an A-role and a B-role operand in
+// the body of f (nested literals excluded), normalised like OrdCmps.
+func (f *Func) ExprCmps(roleA, roleB Role, shift int64) (cmps []ExprCmp, undecided []ast.Expr) {
+	info := f.Info()
+	InspectShallow(f.Body, func(m ast.Node) bool {
+		be, ok := m.(*ast.BinaryExpr)
+		if !ok {
+			return true
+		}
+		switch be.Op {
+		case token.LSS, token.LEQ, token.GTR, token.GEQ, token.EQL, token.NEQ:
+		default:
+			return true
+		}
+		xb, xo, _ := splitOffset(info, be.X)
+		yb, yo, _ := splitOffset(info, be.Y)
+		op := be.Op
+		var aOff, bOff int64
+		switch {
+		case roleA(xb) && roleB(yb):
+			aOff, bOff = xo, yo
+		case roleB(xb) && roleA(yb):
+			aOff, bOff = yo, xo
+			op = flipOp(op)
+		default:
+			return true
+		}
+		c := shift + bOff - aOff
+		switch {
+		case c == 0:
+		case c == 1 && op == token.LSS:
+			op = token.LEQ
+		case c == 1 && op == token.GEQ:
+			op = token.GTR
+		case c == -1 && op == token.GTR:
+			op = token.GEQ
+		case c == -1 && op == token.LEQ:
+			op = token.LSS
+		default:
+			undecided = append(undecided, be)
+			return true
+		}
+		cmps = append(cmps, ExprCmp{Expr: be, Op: op})
+		return true
+	})
+	return
+}
+
+// EdgeUnder returns the unique branch edge of the condition vertex cond that
+// can be taken when the sub-expression cmp has value cmpVal and the atoms in
+// fixed (recognised by at) have the given values; nil if both or none can.
+func (g *Graph) EdgeUnder(cond *Node, cmp ast.Expr, cmpVal bool, at Atomizer, fixed map[string]bool) *Node {
+	info := g.Fn.Info()
+	ce, ok := cond.Ast.(ast.Expr)
+	if !ok {
+		return nil
+	}
+	wrap := func(e ast.Expr) (string, bool, bool) {
+		if ast.Unparen(e) == ast.Unparen(cmp) {
+			return "#cmp", false, true
+		}
+		if at != nil {
+			return at(e)
+		}
+		return "", false, false
+	}
+	fx := map[string]bool{"#cmp": cmpVal}
+	for k, v := range fixed {
+		fx[k] = v
+	}
+	var res *Node
+	n := 0
+	for _, s := range cond.Succs {
+		if s.Kind != KTrue && s.Kind != KFalse {
+			continue
+		}
+		if CondPossible(info, ce, s.Kind == KTrue, wrap, fx) {
+			res = s
+			n++
+		}
+	}
+	if n != 1 {
+		return nil
+	}
+	return res
+}
+
+// CondNodeOf returns the condition vertex whose expression contains e.
+func (g *Graph) CondNodeOf(e ast.Expr) *Node {
+	for _, n := range g.Nodes {
+		if n.Kind != KStmt || len(n.Succs) != 2 {
+			continue
+		}
+		ce, ok := n.Ast.(ast.Expr)
+		if !ok {
+			continue
+		}
+		if ce.Pos() <= e.Pos() && e.End() <= ce.End() {
+			return n
+		}
+	}
+	return nil
+}
+
+// BoolReturns lists the return vertices whose single result is the constant val.
+func (g *Graph) BoolReturns(val bool) []*Node {
+	info := g.Fn.Info()
+	var out []*Node
+	for _, r := range g.Returns() {
+		rs := r.Ast.(*ast.ReturnStmt)
+		if len(rs.Results) != 1 {
+			continue
+		}
+		if tv, ok := info.Types[rs.Results[0]]; ok && tv.Value != nil && tv.Value.Kind() == constant.Bool && constant.BoolVal(tv.Value) == val {
+			out = append(out, r)
+		}
+	}
+	return out
+}
+
+// CanReachAny reports whether any vertex of targets is reachable from `from`.
+func (g *Graph) CanReachAny(from *Node, targets []*Node) bool {
+	r := g.Reach([]*Node{from}, nil)
+	for _, t := range targets {
+		if r[t] {
+			return true
+		}
+	}
+	return false
+}
+
+// SingleDefInLoop is SingleDef that tolerates the definition sitting inside a
+// loop body (x := e executed once per iteration).
+func (g *Graph) SingleDefInLoop(obj types.Object) (ast.Expr, int) {
+	if obj == nil {
+		return nil, 0
+	}
+	info := g.Fn.Info()
+	var found ast.Expr
+	count := 0
+	idx := 0
+	for _, n := range g.Nodes {
+		if n.Kind != KStmt {
+			continue
+		}
+		as, ok := n.Ast.(*ast.AssignStmt)
+		if !ok {
+			continue
+		}
+		for i, l := range as.Lhs {
+			id, ok := ast.Unparen(l).(*ast.Ident)
+			if !ok || (info.Defs[id] != obj && info.Uses[id] != obj) {
+				continue
+			}
+			count++
+			if len(as.Rhs) == len(as.Lhs) {
+				found, idx = as.Rhs[i], 0
+			} else if len(as.Rhs) == 1 {
+				found, idx = as.Rhs[0], i
+			}
+		}
+	}
+	if count != 1 {
+		return nil, 0
+	}
+	return found, idx
+}
